@@ -26,3 +26,4 @@ void runDec(const nlohmann::json& ep);
 void runObj(const nlohmann::json& ep);
 void runSt(const nlohmann::json& ep);
 void runVal(const nlohmann::json& ep);
+void runVld(const nlohmann::json& ep);
